@@ -116,6 +116,9 @@ type pluginCfg struct {
 	Mult      int      `json:",omitempty"` // retention_exponentially_multiplier (0 = the default, 2)
 	GzipLevel string   `json:",omitempty"` // gzip_compression_level ("" = default)
 	Fleet     []string `json:",omitempty"` // endpoint kinds in configuration order (elasticsearch, http)
+	// file: big-event cases (bigfile.go)
+	BigFile bool `json:",omitempty"` // batches holding very large events written by several workers
+	SealMs  int  `json:",omitempty"` // retention_interval in ms (0 = 24h: the file is never sealed up while the case runs)
 	// elasticsearch
 	OpType      string
 	IndexFormat string
@@ -167,6 +170,9 @@ func (c *pluginCfg) tag() string {
 			t += "|fleet=" + fleetTag(c.Fleet)
 		}
 	}
+	if c.BigFile {
+		t += "|bigfile|seal=" + sealBucket(c.SealMs)
+	}
 	switch c.Plugin {
 	case "elasticsearch":
 		t += "|" + c.OpType + "|" + c.IndexFormat
@@ -190,6 +196,9 @@ func (c *pluginCfg) sigCfg() string {
 	s := "plugin=" + c.Plugin
 	if c.Plugin == "http" && c.Raw {
 		s += " encoding=raw"
+	}
+	if c.BigFile {
+		s += " workload=big-events-concurrent-workers"
 	}
 	return s
 }
@@ -432,6 +441,9 @@ func startSession(c *pluginCfg, scratch string) (*session, error) {
 		cf := cfgAny.(*file.Config)
 		cf.TargetFile = s.dir + "c19.log"
 		cf.RetentionInterval = cfgDur("24h")
+		if c.SealMs > 0 {
+			cf.RetentionInterval = cfgDur(fmt.Sprintf("%dms", c.SealMs))
+		}
 		cf.WorkersCount = cfgExpr(wk)
 		cf.BatchSize = cfgExpr(bs)
 		cf.BatchSizeBytes = cfgExpr(bsb)
